@@ -109,6 +109,17 @@ def make_jobs(ctx, only=None):
                                  probe_args=dict(package=names.import_package(P), proto_package=P, cells=part, client=client,
                                                  max_k=3 if not ctx.thorough else 5, seed=ctx.seed),
                                  _kind='drive', _client=client, _cells=part))
+    # variants on a sample of the cells: client logging at DEBUG (all three clients); an unknown member in the first REST reply
+    for client, flag in (('sync', 'debug_logging'), ('asyncio', 'debug_logging'), ('rest', 'debug_logging'), ('rest', 'unknown_member')):
+        vid = f'{client}+{flag}'
+        if only and only.get('client') != vid:
+            continue
+        part = [c for c in cells if c['kind'] == 'lro'][::9] if not only else cells
+        if part:
+            jobs.append(dict(id=f'lro/{vid}', req=req.SerializeToString(), opt_files=of, probe='mc.probes.lro',
+                             probe_args=dict(package=names.import_package(P), proto_package=P, cells=part, client=client, max_k=2,
+                                             seed=ctx.seed, **{flag: True}),
+                             _kind='drive', _client=vid, _cells=part))
     if not only:
         jobs += rejection_jobs()
     if not only or only.get('client') == 'rest-v1beta1':
